@@ -12,6 +12,7 @@ import (
 	"os"
 	"path/filepath"
 
+	"github.com/sheerbytes/sheerbytes/internal/app"
 	"github.com/sheerbytes/sheerbytes/internal/transfer"
 	"github.com/sheerbytes/sheerbytes/internal/verif/vlib"
 )
@@ -95,7 +96,7 @@ func reseal(b []byte) []byte {
 func main() {
 	res = vlib.Parse()
 	res.Part = "sidecar"
-	res.Rule = "every single-bit flip and every truncation of valid metadata files of several shapes, identity fields rewritten with the checksum recomputed, all files of 0-2 bytes; a case is non-trivial when the file differs from the valid one; distinct by (shape, mutation)"
+	res.Rule = "every single-bit flip and every truncation of valid metadata files of several shapes, identity fields rewritten with the checksum recomputed, all files of 0-2 bytes; detection and clearing of leftover metadata by the receiver CLI for 5 root names x 2 root modes x every directory the loader consults; a case is non-trivial when the file differs from the valid one; distinct by (shape, mutation)"
 	dir = os.Getenv("VERIF_SCRATCH")
 	if dir == "" {
 		dir, _ = os.MkdirTemp("/dev/shm", "c06a")
@@ -253,5 +254,69 @@ func main() {
 			}
 		}
 	}
+	userChoice(&n)
 	res.Finish()
+}
+
+// userChoice: the receiver CLI asks "resume or overwrite" when it finds leftover metadata, and on
+// "overwrite" removes it. For every root name, both root-directory modes and every directory the
+// receiver's loader consults (primary and fallback, computed the way RecvManifestMultiStream
+// does), a complete stale sidecar placed there must (a) be detected and (b) after the clearing no
+// longer give the loader a single chunk to skip.
+func userChoice(n *int) {
+	s := shape{"00000000000000c6", 12, 4, []uint32{0, 1, 2}}
+	for ri, root := range []string{"", "snap", "d e", "a.b", ".hidden"} {
+		for _, noRoot := range []bool{false, true} {
+			for where := 0; where < 2; where++ {
+				*n++
+				if !vlib.Mine(*n) {
+					continue
+				}
+				out := filepath.Join(dir, fmt.Sprintf("uc-%d-%v-%d", ri, noRoot, where))
+				os.RemoveAll(out)
+				rooted := filepath.Join(out, root)
+				base := rooted
+				if noRoot {
+					base = out
+				}
+				primary := transfer.SidecarPath(base, "", s.ID)
+				fallback := ""
+				if rooted != base {
+					fallback = transfer.SidecarPath(rooted, "", s.ID)
+				}
+				loc := primary
+				if where == 1 {
+					if fallback == "" {
+						continue
+					}
+					loc = fallback
+				}
+				res.Eval()
+				res.Nontrivial(fmt.Sprintf("uc|%d|%v|%d", ri, noRoot, where))
+				stale := build(s)
+				os.MkdirAll(filepath.Dir(loc), 0755)
+				os.WriteFile(loc, stale, 0644)
+				rp := map[string]any{"root": root, "norootdir": noRoot, "stale_in": []string{"primary", "fallback"}[where]}
+				sc, err := transfer.LoadOrCreateSidecarWithFallback(primary, fallback, s.ID, s.Size, s.Chunk)
+				if err != nil || countBits(sc.MarshalBitmap()) != len(s.Bits) {
+					res.InfraError("user-choice %v: the stale sidecar is not what the loader would use: %v", rp, err)
+					continue
+				}
+				os.WriteFile(loc, stale, 0644) // in case the loader moved it: back where it was
+				if !app.VerifHasResumeData(out, root) {
+					violate("leftover-metadata-not-detected", s, fmt.Sprintf("stale metadata in the %s directory (root %q, no-root-dir %v) is used by the receiver's loader but not detected: the resume/overwrite question is never asked", rp["stale_in"], root, noRoot), rp)
+					os.RemoveAll(out)
+					continue
+				}
+				if err := app.VerifClearResumeData(out, root); err != nil {
+					res.InfraError("clearResumeData: %v", err)
+				}
+				sc, err = transfer.LoadOrCreateSidecarWithFallback(primary, fallback, s.ID, s.Size, s.Chunk)
+				if err == nil && countBits(sc.MarshalBitmap()) > 0 {
+					violate("overwrite-keeps-stale-metadata", s, fmt.Sprintf("after the user chose overwrite, stale metadata in the %s directory (root %q, no-root-dir %v) still makes the receiver skip %d chunks", rp["stale_in"], root, noRoot, countBits(sc.MarshalBitmap())), rp)
+				}
+				os.RemoveAll(out)
+			}
+		}
+	}
 }
